@@ -19,6 +19,7 @@ import YashModel.Exec.SearchCompose
 import YashModel.Exec.BuiltinLemmas
 import YashModel.Exec.LawLemmas
 import YashModel.Exec.Identify
+import YashModel.Exec.LoopIrrelevance
 namespace YashModel.Exec
 
 /-! ### ★ stack_balanced: every push has its pop on every path -/
@@ -1587,6 +1588,107 @@ example :
     (execCommands 20 { pipefail := true } [stage none, .st 0]).1.status = 3 ∧
     (execCommands 20 { pipefail := true }
       [.group [it (.fundef (.f 0) (.group [it (.ret (some 9))])), it (.call (.f 0) 0), it (.st 0)], .st 0]).1.status = 0 := by
+  decide
+
+/-! ### wave 3, fourth pass: context-loop irrelevance and what follows (Exec/LoopIrrelevance.lean) -/
+
+/-- context-loop irrelevance on the executor: a list run with one more `Loop` frame on the stack (in a context where
+    no signal-trap action can run: inside a subshell or a trap action) either ends with a `break`/`continue` that
+    reaches that loop or beyond, or is the very same run — same divert, same state but for the extra frame -/
+theorem loop_frame_irrelevant (f : Nat) (s : St) (l : List Item) (hq : (ctxOf s.stack).quiet = true) :
+    Reach (loops s.stack) (execList f (s.push .loop) l).2 ∨
+      execList f (s.push .loop) l = ({ (execList f s l).1 with stack := .loop :: s.stack }, (execList f s l).2) := by
+  have r1 : RelS (execList f (s.push .loop) l) (specList f ((ctxOf s.stack).more 1) s l) := by
+    have := (ref f).list (s.push .loop) s l ⟨s.stack, rfl⟩
+    rw [show (s.push .loop).stack = .loop :: s.stack from rfl, ctxOf_loop] at this
+    exact this
+  have r2 := (ref f).list s s l (sbs_refl s)
+  have hb : (execList f (s.push .loop) l).1.stack = .loop :: s.stack := (bal f).list (s.push .loop) l
+  rcases (irr f).list (ctxOf s.stack) 1 s l hq with h | h
+  · left
+    rw [r1.2]
+    exact h
+  · right
+    rw [h] at r1
+    have he := eq_of_sbs r2.1 r1.1
+    rw [hb] at he
+    exact Prod.ext he (r1.2.trans r2.2.symm)
+
+/-- `for x in w; do body; done` ≡ `body` (one word): when the body, run inside the loop, ends without a
+    `break`/`continue` (normally, or by return/exit/an error), the loop command is the body run without the loop —
+    same state, trace, `$?` and divert -/
+theorem for_one_is_body (g : Nat) (s : St) (body : List Item) (hne : body ≠ [])
+    (hq : (ctxOf s.stack).quiet = true)
+    (hnb : ∀ k, (execList (g+1) (s.push .loop) body).2 ≠ .break_ (.break_ k) ∧
+      (execList (g+1) (s.push .loop) body).2 ≠ .break_ (.continue_ k)) :
+    execCmd (g+3) s (.forLoop 1 body) = execList (g+1) s body := by
+  have hbe : body.isEmpty = false := by cases body <;> simp_all
+  simp only [execCmd, execFor, hbe]
+  simp only [Nat.succ_ne_zero, false_and, if_false, Bool.not_false]
+  rcases loop_frame_irrelevant (g+1) s body hq with h | h
+  · exfalso
+    generalize execList (g+1) (s.push .loop) body = x at h hnb
+    obtain ⟨s1, r⟩ := x
+    cases r with
+    | break_ dv =>
+      cases dv with
+      | break_ k => exact (hnb k).1 rfl
+      | continue_ k => exact (hnb k).2 rfl
+      | _ => simp [Reach] at h
+    | _ => simp [Reach] at h
+  · rw [h] at hnb ⊢
+    have hbs := (bal (g+1)).list s body
+    generalize execList (g+1) s body = x at hnb hbs ⊢
+    obtain ⟨s1, r⟩ := x
+    simp only at hnb hbs ⊢
+    have hpop : ({ s1 with stack := .loop :: s.stack } : St).pop = s1 := by
+      cases s1; simp_all [St.pop]
+    cases r with
+    | continue_ => simp [loopStep, execFor, hpop]
+    | outOfFuel => simp [loopStep, hpop]
+    | break_ dv =>
+      cases dv with
+      | break_ k => exact absurd rfl (hnb k).1
+      | continue_ k => exact absurd rfl (hnb k).2
+      | _ => simp [loopStep, hpop]
+
+/-- not vacuous (`for_one_is_body`): inside a subshell, `for x in w; do probe 1; st 4; done` is `probe 1; st 4` -/
+example :
+    let it (c : Cmd) : Item := .mk (.mk false [c]) []
+    let s : St := { stack := [.subshell] }
+    (ctxOf s.stack).quiet = true ∧
+    (execList 6 (s.push .loop) [it (.probe 1), it (.st 4)]).2 = .continue_ ∧
+    execCmd 8 s (.forLoop 1 [it (.probe 1), it (.st 4)]) = execList 6 s [it (.probe 1), it (.st 4)] := by
+  refine ⟨by decide, by decide, ?_⟩
+  have h : (execList 6 (({ stack := [.subshell] } : St).push .loop)
+      [.mk (.mk false [.probe 1]) [], .mk (.mk false [.st 4]) []]).2 = .continue_ := by decide
+  exact for_one_is_body 5 _ _ (by simp) (by decide) (by intro k; rw [h]; simp)
+
+/-- the textbook unfolding `while c; do b; done` ≡ `if c; then b; while c; do b; done; fi` does NOT hold for `$?`
+    in the shell (POSIX: a `while` that runs its body no further yields the status of the last body executed, but a
+    *fresh* `while` that never runs its body yields 0): `while tick 0 1; do st 5; done` ends with 5, its unfolding with
+    0 — same trace, different status.  (The law that does hold is the loop's own recursion with its status register:
+    `while_status_is_last_body`.) -/
+example :
+    let it (c : Cmd) : Item := .mk (.mk false [c]) []
+    let w : Cmd := .whileLoop false [it (.tick 0 1)] [it (.st 5)]
+    (execCmd 30 {} w).1.status = 5 ∧
+    (execCmd 30 {} (.ifc [it (.tick 0 1)] [it (.st 5), it w] [] none)).1.status = 0 := by
+  decide
+
+/-- yash-rs has no function frame (`execute_function_body` pushes nothing on `env.stack`): `break`/`continue` inside a
+    function body see the CALLER's loops — `f0() { break; }; while …; do f0; probe 1; done` leaves the loop.  In the
+    model: a call whose body is `break n` inside `L > 0` visible loops yields `Break (min n L - 1)` to the caller -/
+theorem function_break_reaches_caller (fuel : Nat) (s : St) (name : Name) (nargs n : Nat)
+    (hc : classify s name = .function (.brk n)) (hl : 0 < min n (loops s.stack)) :
+    (execCmd (fuel+2) s (.call name nargs)).2 = .break_ (.break_ (min n (loops s.stack) - 1)) := by
+  have h0 : ¬ min n (loops s.stack) = 0 := by omega
+  simp [execCmd, hc, breakBuiltin, loopCount_eq_min, loops_builtin, h0, finishSimple]
+
+example :
+    let it (c : Cmd) : Item := .mk (.mk false [c]) []
+    (runShell 60 {} [.cmds [it (.fundef (.f 0) (.brk 1)),
+      it (.whileLoop false [it (.tick 0 3)] [it (.call (.f 0) 0), it (.probe 1)]), it (.probe 2)]]).1.trace = [(2, 0)] := by
   decide
 
 end YashModel.Exec
